@@ -1,11 +1,18 @@
 (* C14 - secret-independent execution in constant-time test mode (partial by nature).
-   What a source-level model can carry is proved here: under CTEST every loop-exit decision of the
-   samplers and of the signing loop is independent of the sampled data (exact byte counts, no
-   rejection, a single signing attempt).  Instruction-level behaviour (branches and addresses of
-   the compiled code) is OBSERVED by the trace stream of tools/streams.py (SanitizerCoverage edge
-   and load/store-address traces), not proved. *)
+   What a source-level model can carry is proved here:
+   (1) the leakage model of the arithmetic kernels, regenerated from /repo/src on every run by translator T4
+       (Gen/KernelsLeak.v: release-profile value + list of branch decisions): for EVERY input the trace of each kernel that
+       key generation and signing apply to secret coefficients is independent of them (Proofs/KernelLeak.v), and the
+       release-profile values are the checked model's values wherever that model returns;
+   (2) under CTEST every loop-exit decision of the samplers and of the signing loop is independent of the sampled data
+       (exact byte counts, no rejection, a single signing attempt).
+   Not in the model: the loop structure and indexing of the glue around the kernels (constant bounds in the source), the
+   bit-packing loops, and everything the compiler does (it may add or remove branches).  Instruction-level behaviour
+   (branches and addresses of the compiled code) is OBSERVED by the trace stream of tools/streams.py (SanitizerCoverage edge
+   and load/store-address traces of the pipeline and of each kernel) - that stream is the correspondence of (1)-(2) to the code. *)
 Require Import F204.Base.Util F204.Base.Mach F204.Gen.Params F204.Hash.HashIface
-  F204.Impl.Helpers F204.Impl.Conversion F204.Impl.Hashing F204.Impl.MlDsa F204.Proofs.KernelLemmas F204.Proofs.CtestLemmas.
+  F204.Impl.Helpers F204.Impl.Conversion F204.Impl.Hashing F204.Impl.MlDsa F204.Proofs.KernelLemmas F204.Proofs.CtestLemmas
+  F204.Gen.Kernels F204.Gen.KernelsLeak F204.Proofs.KernelLeak.
 Open Scope Z_scope.
 
 Theorem C14_three_bytes_never_rejected : forall b0 b1 b2, 0 <= b0 < 256 -> 0 <= b1 < 256 -> 0 <= b2 < 256 ->
@@ -27,6 +34,31 @@ Theorem C14_single_signing_attempt : forall H P sk A mu rho kappa,
   sign_attempt H true P sk A mu rho kappa <> Ok None.
 Proof. exact sign_attempt_ctest_never_rejects. Qed.
 
+(* (1) the kernels' leakage traces do not depend on secret inputs (statement: Proofs/KernelLeak.v) *)
+Definition C14_kernel_traces_are_secret_independent := kernel_traces_are_secret_independent.
+Theorem C14_make_hint_trace : forall g z r z' r', leak (r_make_hint g z r) = leak (r_make_hint g z' r').
+Proof. exact leak_make_hint. Qed.
+Theorem C14_decompose_trace : forall g r r', leak (r_decompose g r) = leak (r_decompose g r').
+Proof. exact leak_decompose. Qed.
+Theorem C14_half_byte_trace_ctest : forall eta b, eta = 2 \/ eta = 4 -> 0 <= b < 16 ->
+  leak (r_coeff_from_half_byte true eta b) = leak (r_coeff_from_half_byte true eta 0).
+Proof. exact leak_half_byte_ctest. Qed.
+Theorem C14_rejection_tests_ctest : forall zn g1 b r0n g2 n hs om,
+  r_sign_reject1 true zn g1 b r0n g2 = (false, [false]) /\ r_sign_reject2 true n g2 hs om = (false, [false]).
+Proof. intros. split; reflexivity. Qed.
+(* the release-profile values of the leakage model are the checked model's values *)
+Definition C14_release_model_agrees := release_values_agree.
+(* kernels that branch on their data - nothing is claimed for them *)
+Definition C14_use_hint_is_not_constant_time := use_hint_branches_on_data.
+Definition C14_range_test_is_not_constant_time := in_range_elem_branches_on_data.
+Definition C14_recentring_is_not_constant_time := recenter_branches_on_data.
+
+Print Assumptions C14_kernel_traces_are_secret_independent.
+Print Assumptions C14_make_hint_trace.
+Print Assumptions C14_decompose_trace.
+Print Assumptions C14_half_byte_trace_ctest.
+Print Assumptions C14_rejection_tests_ctest.
+Print Assumptions C14_release_model_agrees.
 Print Assumptions C14_three_bytes_never_rejected.
 Print Assumptions C14_half_byte_never_rejected.
 Print Assumptions C14_rej_ntt_exact_768_bytes.
